@@ -47,6 +47,48 @@ def _selftest(ck, pid):
             pass
 
 
+def _seeded(ck, pid):
+    """Thorough tier: every stored seeded change of this property (/verif/seeded/<pid>-*/patch.diff, written by
+    independent sub-agents, each confirmed to break the property while the test-suite passes) is applied to a scratch
+    copy of /repo/pint and the check is run on the copy: it must exit 1.  Recorded in evidence; never changes the verdict."""
+    import shutil
+    import subprocess
+    import tempfile
+    here = os.path.dirname(os.path.dirname(os.path.abspath(__file__)))
+    root = os.path.join(here, "seeded")
+    repo = os.environ.get("PINT_REPO", "/repo")
+    out = []
+    if not os.path.isdir(root):
+        return
+    for name in sorted(os.listdir(root)):
+        if not name.startswith(pid + "-"):
+            continue
+        pf = os.path.join(root, name, "patch.diff")
+        if not os.path.exists(pf):
+            continue
+        tmp = tempfile.mkdtemp(prefix="seeded-")
+        try:
+            shutil.copytree(os.path.join(repo, "pint"), os.path.join(tmp, "pint"), ignore=shutil.ignore_patterns("testsuite", "__pycache__"))
+            r = subprocess.run(["patch", "-p1", "-s", "-f", "-d", tmp, "-i", pf], capture_output=True, text=True)
+            if r.returncode != 0:
+                out.append({"seed": name, "status": "patch-does-not-apply"})
+                continue
+            env = dict(os.environ, PINT_REPO=tmp, VERIF_EVIDENCE_DIR=os.path.join(tmp, "ev"))
+            rr = subprocess.run([os.path.join(here, "check"), pid], capture_output=True, text=True, env=env)
+            first = next((l.strip() for l in rr.stdout.splitlines() if l.startswith("  pint")), "")
+            out.append({"seed": name, "status": "reported" if rr.returncode == 1 else ("analysis-error" if rr.returncode == 2 else "NOT-REPORTED"), "report": first[:240]})
+        except Exception as e:  # never affects the verdict
+            out.append({"seed": name, "status": "error", "why": str(e)})
+        finally:
+            shutil.rmtree(tmp, ignore_errors=True)
+    summary = {}
+    for x in out:
+        summary[x["status"]] = summary.get(x["status"], 0) + 1
+    ck.extra["seeded_changes"] = {"summary": summary, "results": out,
+                                  "explanation": "changes written by independent sub-agents that break this property while compiling and passing the test-suite (see seeded/<id>/meta.json); applied to scratch copies only"}
+    print(f"[{pid}] seeded changes: {summary}")
+
+
 def main(argv):
     if not argv:
         print("usage: check <ID> [--tier quick|thorough] [--replay path]")
@@ -85,6 +127,7 @@ def main(argv):
         return ck.finish(getattr(mod, "EXPLANATION", ""), error=f"internal error {type(e).__name__}: {e}")
     if tier == "thorough":
         _selftest(ck, pid)
+        _seeded(ck, pid)
     code = ck.finish(explanation)
     if replay:
         try:
